@@ -52,3 +52,11 @@ Theorem C09_flate_refuses :
   forall count p n r, flate_limit < count + p -> flate_reads count ((p, n) :: r) = Err 1.
 Proof. exact flate_refuses. Qed.
 Print Assumptions C09_flate_refuses.
+
+(* The monitor the correspondence check evaluates on the implementation's answers is the
+   boolean form of the statements above: it is true of the model itself, so it can only fire on
+   a case where the implementation departs from the model (entry point ParseXMLResponse). *)
+Theorem C09_monitor_holds_of_model :
+  forall c, pc_entry c = 0 -> spcase_agree c = true -> c09_spec c = true.
+Proof. exact c09_monitor. Qed.
+Print Assumptions C09_monitor_holds_of_model.
